@@ -25,6 +25,12 @@ type ringLayer struct {
 type builtArgs struct {
 	vals  []absint.Val
 	rings map[int]*absint.Ptr // parameter index -> pointer to ring object
+	bufs  map[int]bufArg      // parameter index -> caller-provided byte array (output buffers are observable)
+}
+
+type bufArg struct {
+	p *absint.Ptr
+	n int
 }
 
 func namedOf(t types.Type) string {
@@ -40,7 +46,7 @@ func namedOf(t types.Type) string {
 // buildRingArgs creates symbolic arguments with layer-independent symbol names.
 // alias[i] = j makes parameter i the same object as parameter j.
 func buildRingArgs(ex *absint.Exec, st *absint.State, fn *ssa.Function, l ringLayer, alias map[int]int, sliceLen map[int]int, consts map[int]absint.Val) builtArgs {
-	b := builtArgs{rings: map[int]*absint.Ptr{}}
+	b := builtArgs{rings: map[int]*absint.Ptr{}, bufs: map[int]bufArg{}}
 	for i, p := range fn.Params {
 		if v, ok := consts[i]; ok {
 			b.vals = append(b.vals, v)
@@ -67,7 +73,9 @@ func buildRingArgs(ex *absint.Exec, st *absint.State, fn *ssa.Function, l ringLa
 			b.rings[i] = v
 		case isByteArrayPtr(t) > 0:
 			n := isByteArrayPtr(t)
-			b.vals = append(b.vals, ex.ByteArrayPtr(st, absint.SymBytes(name, n, 0), name))
+			bp := ex.ByteArrayPtr(st, absint.SymBytes(name, n, 0), name)
+			b.vals = append(b.vals, bp)
+			b.bufs[i] = bufArg{bp, n}
 		case isByteSlice(t):
 			if n, ok := sliceLen[i]; ok {
 				b.vals = append(b.vals, ex.BytesToSlice(st, absint.SymBytes(name, n, 0), name))
@@ -205,6 +213,15 @@ func observe(ex *absint.Exec, out absint.Outcome, b builtArgs, l ringLayer, pani
 			}
 			o.add(fmt.Sprintf("param%d", i), renderVal(ex, st, ex.LoadLeaf(st, leaf), b, l))
 		}
+		// contents of caller-provided byte buffers after the call
+		bidx := []int{}
+		for i := range b.bufs {
+			bidx = append(bidx, i)
+		}
+		sort.Ints(bidx)
+		for _, i := range bidx {
+			o.add(fmt.Sprintf("buffer%d", i), sym.Canon(st.Simplify(ex.ReadArray(st, b.bufs[i].p, b.bufs[i].n))).String())
+		}
 	}
 	var ps []string
 	for _, p := range panics {
@@ -255,6 +272,10 @@ func validateModel(c *Ctx, rule string, prog *load.Program, lower, upper ringLay
 				c.R.Unknown(rule, key, pos, fmt.Sprintf("layer %d: %s %s", li, e.Callee, e.Msg))
 				return false
 			}
+		}
+		if fn.Signature.Results().Len() == 0 && out.Ret != nil {
+			// nothing is returned by the code; what the specification would hand back is not observable
+			out.Ret.Results = nil
 		}
 		obs[li] = observe(ex, out, b, l, ex.Panics)
 	}
